@@ -52,6 +52,7 @@ CHECKS = {
          "the stream-parser model) outside the stale reserved masks, the transcription of Bundle::validate returns no error iff the rule list of the "
          "property text (raw bit tests, NoDup block numbers, at-most-once singleton types, payload present, status-report restriction, creation-time-zero "
          "rule) holds; K-val channel on bytes of the Python reference encoder over the rule space with a Python transcription of the rules as oracle. "
+         "C07_validate_iff_any extends the equivalence to EVERY bundle value (API-built, any widths, mismatched block data) provided no type-1 block carries CanonicalData::Unknown (the one corner where code and rule list differ, C07_ex_unknown_payload). "
          "C07_tie_block_flags / C07_tie_bundle_flags: Bundle::validate of the compiled crate on an otherwise valid bundle with every u8 block flag word and every combination of the 14 "
          "bundle flag bits (tables regenerated from /repo on every run) equal the model's, outside the don't-care masks - kernel-checked over all rows; "
          "C07_tie_rule_space: Bundle::validate of the compiled crate on EVERY bundle of the block-list part of the property's finite rule space (8 contexts x 27931 "
